@@ -1,14 +1,23 @@
 (** * C08 — Failure handling and the reported job verdict are sound  (PARTIAL)
 
-    Proved here as decision rules of the model tied to the code by the correspondence run: a dependent of a failed
-    (not allow_failure) or canceled stage is never launched; an acknowledged cancel (also the fail-fast one) makes the
-    job end canceled (C04_ends_canceled). The verdict clauses over whole histories (completed ∧ ¬canceled ∧ no error ⇒
-    every task succeeded; no task reported running once completed; fail-fast tells the running tasks; with
-    continue_running_tasks_after_failure independent tasks complete) are decided by the monitor on every executed
-    history and by the step-exact comparison of all task / job fields, not yet by theorems. *)
+    Proved over every reachable state of the system model: when a job is completed (its scheduler has returned and
+    JobCompleted ran) none of its tasks is reported running (C08_completed_no_task_running; this needs the final
+    stage-change notification to be delivered before the scheduler returns, which the model has at notification
+    granularity). As decision rules: a dependent of a failed (not allow_failure) or canceled stage is never launched; a
+    stage is ready exactly when every dependency is done, skipped or failed with allow_failure; an acknowledged cancel
+    (also the fail-fast one) makes the job end canceled (C04_ends_canceled).
+    NOT proved (decided by the monitor on every executed history and by the step-exact comparison of all task / job
+    fields): completed ∧ ¬canceled ∧ no error ⇒ every task succeeded; fail-fast tells the running tasks; with
+    continue_running_tasks_after_failure independent tasks complete. *)
 From stdpp Require Import list.
 From Coq Require Import ZArith.
-From PV Require Import System proofs.SchedProps.
+From PV Require Import System Runner proofs.SchedProps proofs.StageProps.
+
+(** over every history: the step that completes a job leaves it completed with no task reported running *)
+Theorem C08_completed_no_task_running : ∀ s id s' r,
+  reach s → step s (EvSchedReturn id) = Some (s', r) →
+  ∀ j', get_job s' id = Some j' → j_completed j' = true ∧ ∀ t, t ∈ j_tasks j' → jt_status t ≠ Running.
+Proof. exact completed_no_running. Qed.
 
 Theorem C08_dependents_never_launched_partial : ∀ sc j n d,
   d ∈ task_deps j n →
@@ -38,5 +47,6 @@ Example C08_ex_dependent_never_runs :
     <$> get_job s 0 = Some (true, false, Some EFail, [Error; Done; Waiting], [Some 0%Z; Some 0%Z; None]).
 Proof. vm_compute. done. Qed.
 
+Print Assumptions C08_completed_no_task_running.
 Print Assumptions C08_dependents_never_launched_partial.
 Print Assumptions C08_ready_iff_deps_ok.
